@@ -1351,6 +1351,10 @@ func parseAddrHostUnion(token, o string, gatewayType uint8) (addr net.IP, host s
 		if addr == nil {
 			return addr, host, errors.New("gateway IP invalid")
 		}
+		if gatewayType == IPSECGatewayIPv6 && strings.Contains(token, ":") {
+			// Written with colons it is an IPv6 address, also ::ffff:192.0.2.1.
+			return addr, host, nil
+		}
 		if (addr.To4() == nil) == (gatewayType == IPSECGatewayIPv4) {
 			return addr, host, errors.New("gateway IP family mismatch")
 		}
